@@ -677,7 +677,7 @@ pub fn run_c08(ctx: &Ctx) -> i32 {
          old base tree ids, new base tree ids).",
     );
     ctx.assume("merge_commit_trees (C07) gives the parents' merged tree; store read/write of trees and files (C17)");
-    let n = ctx.tier().pick(5_000, 150_000);
+    let n = ctx.tier().pick(15_000, 150_000);
     par_cases(ctx, n, threads(), |i, cs, rng| {
         let log: RefCell<Vec<Value>> = RefCell::new(vec![]);
         run_case_tolerant(
@@ -1557,7 +1557,7 @@ pub fn run_c09(ctx: &Ctx) -> i32 {
          Distinct: by (operation, source, working copy, graph shape with tree ids, selection/outcome).",
     );
     ctx.assume("the set of commits that received changes is taken from split_hunks_to_trees' own plan (checked to be ancestors within the destination set), not from an independent annotate model");
-    let n = ctx.tier().pick(6_000, 200_000);
+    let n = ctx.tier().pick(15_000, 200_000);
     par_cases(ctx, n, threads(), |i, cs, rng| {
         let log: RefCell<Vec<Value>> = RefCell::new(vec![]);
         run_case_tolerant(
